@@ -244,6 +244,10 @@ pub struct Plan {
     pub fs_yield_pm: u32,
     pub disk_fail_writes: Vec<u64>,
     pub disk_fail_reads: Vec<u64>,
+    /// piece files left in the directory by an earlier, interrupted run: (piece, kind) with kind
+    /// 0 = complete and correct, 1 = truncated, 2 = garbage of the right length
+    #[serde(default)]
+    pub preexisting: Vec<(u32, u8)>,
     pub tracker: TrackerPlan,
     pub peers: Vec<PeerPlan>,
     /// virtual deadline (ms)
